@@ -21,6 +21,9 @@ pub struct Profile {
     pub p_timeouts: usize,
     pub probe: bool,
     pub p_start: usize,
+    /// percent chance per step to run everything that can run to completion (blocked
+    /// getters stay blocked) and take a status() at rest
+    pub p_quiesce: usize,
 }
 
 impl Profile {
@@ -45,6 +48,7 @@ impl Profile {
             p_timeouts: 30,
             probe: true,
             p_start: 30,
+            p_quiesce: 2,
         };
         match name {
             // no resize / close: C01, C02 and friends
@@ -82,6 +86,7 @@ impl Profile {
             },
             "status" => Profile {
                 w_ops: [40, 22, 5, 6, 2, 5, 20],
+                p_quiesce: 8,
                 ..base
             },
             _ => base,
@@ -246,6 +251,53 @@ pub fn drain(w: &mut World, t: &mut TraceOut) -> bool {
     }
 }
 
+/// Run every op that is not blocked on the semaphore to completion; queued getters that
+/// were woken are polled. Afterwards the pool is at rest. Then take a status().
+pub fn quiesce(w: &mut World, t: &mut TraceOut) -> bool {
+    let mut guard = 0;
+    loop {
+        guard += 1;
+        if guard > 2000 {
+            t.error = Some("quiesce did not terminate".into());
+            return false;
+        }
+        let mut acted = false;
+        for i in w.unfinished() {
+            let op = w.sched.op(i);
+            let en = w.enabled(i);
+            if en.is_empty() {
+                continue;
+            }
+            let oc = if op.label == "get.acquire" && op.susp {
+                let woken = w.wakers[i]
+                    .as_ref()
+                    .map(|f| f.0.load(std::sync::atomic::Ordering::SeqCst))
+                    .unwrap_or(false);
+                if !woken {
+                    continue;
+                }
+                Outcome::Run
+            } else if en.contains(&Outcome::Run) {
+                Outcome::Run
+            } else {
+                Outcome::Ok
+            };
+            if !do_action(w, &Action::Step(i, oc), t) {
+                return false;
+            }
+            acted = true;
+            break;
+        }
+        if !acted {
+            break;
+        }
+    }
+    t.lines.push("# quiescent".into());
+    let r = start_and_run(w, Spec::Status, t);
+    t.lines.push("# main".into());
+    r
+}
+
 fn run_to_end(w: &mut World, i: usize, t: &mut TraceOut) -> bool {
     let mut guard = 0;
     while !w.sched.op(i).done {
@@ -337,6 +389,12 @@ pub fn gen_trace(seed: u64, p: &Profile) -> TraceOut {
             .map(|i| (*i, w.enabled(*i)))
             .filter(|(_, e)| !e.is_empty())
             .collect();
+        if rng.chance(p.p_quiesce) {
+            if !quiesce(&mut w, &mut t) {
+                return fail(w, t);
+            }
+            continue;
+        }
         let can_start = started < p.max_ops;
         let do_start = can_start && (cands.is_empty() || rng.chance(p.p_start));
         let a = if do_start {
